@@ -470,7 +470,7 @@ def run(ctx):
         if rng.random() < 0.85:
             argv.append("srv1")
             typed["server"] = "srv1"
-        for dest, a in rng.sample(list(acts[cmd].items()), rng.randrange(0, 6)):
+        for dest, a in rng.sample(list(acts[cmd].items()), min(rng.randrange(0, 6), len(acts[cmd]))):
             if not a["options"] or dest in ("help", "verbose", "years", "clientuid"):
                 continue
             o = rng.choice(a["options"])
